@@ -83,23 +83,31 @@ let replay_instance (h : shist) (k : int) : unit =
   (* observations still owed by steps in progress, one queue per step *)
   let owed : sobs list list ref = ref [] in
   let dead = ref false in
+  (* capacity values the model has had during the current instant: a goroutine that recomputes the
+     capacity (v1: every recalculation; both: an expiry handler running beside the loop) may read the
+     table at any point of the instant, so its event may carry any of them *)
+  let cands : int list ref = ref [] in
+  let relaxed = ref false in
+  let note () = let v = int_of_z (capacity (calc !s)) in if not (List.mem v !cands) then cands := v :: !cands in
+  let cap_ok w o =
+    match w, o with
+    | ["ev"; "capacity"; v], SOEvCapacity v' -> ios v = int_of_z v' || ((!relaxed || h.gen = 1) && List.mem (ios v) !cands)
+    | _ -> line_is w o in
   let do_step t l trigger =
     match sstep c !s l with
     | None -> Stdlib.raise (Reject (t, "not-enabled:" ^ trigger, "the model cannot take the step this line stands for"))
-    | Some (s', os) -> s := s'; os in
+    | Some (s', os) -> s := s'; note (); os in
   let advance t =
     if int_of_z !s.s_now < t then
       match sstep c !s (STime (z_of_int t)) with
       | Some (s', _) -> s := s'
       | None -> Stdlib.raise (Reject (t, "missing:released", "time passed the expiry of a counted partition without a released event")) in
-  List.iter (fun ln ->
-      if ln.inst = k && not !dead then begin
-        advance ln.t;
+  let process ln =
         let w = ln.w in
         (* 1. an owed observation? *)
         let rec take_owed acc = function
           | [] -> None
-          | (o :: rest) :: qs when line_is w o -> Some (List.rev_append acc ((if rest = [] then [] else [rest]) @ qs))
+          | (o :: rest) :: qs when cap_ok w o -> Some (List.rev_append acc ((if rest = [] then [] else [rest]) @ qs))
           | q :: qs -> take_owed (q :: acc) qs in
         match take_owed [] !owed with
         | Some owed' -> owed := owed'
@@ -109,7 +117,7 @@ let replay_instance (h : shist) (k : int) : unit =
               let os = do_step ln.t l name in
               let os = if first_is_line then
                   (match os with
-                   | o :: rest when line_is w o -> rest
+                   | o :: rest when cap_ok w o -> rest
                    | o :: _ -> Stdlib.raise (Reject (ln.t, "value:" ^ name, Printf.sprintf "observed %s, model %s" (String.concat " " w) (sobs_str o)))
                    | [] -> Stdlib.raise (Reject (ln.t, "value:" ^ name, "model step has no observation")))
                 else os in
@@ -144,8 +152,54 @@ let replay_instance (h : shist) (k : int) : unit =
              | "apipanic" :: _ -> Stdlib.raise (Reject (ln.t, "unknown:apipanic", String.concat " " w))
              | _ -> Stdlib.raise (Reject (ln.t, "unexpected:" ^ (match w with a :: b :: _ -> a ^ "-" ^ b | a :: _ -> a | [] -> "?"),
                                    Printf.sprintf "line '%s' is not something the model can do now; owed: %s" (String.concat " " w)
-                                     (String.concat " | " (List.map (fun q -> String.concat "," (List.map sobs_str q)) !owed)))))
-      end) h.lines
+                                     (String.concat " | " (List.map (fun q -> String.concat "," (List.map sobs_str q)) !owed))))) in
+  (* the lines of this instance, grouped by instant *)
+  let mine = List.filter (fun ln -> ln.inst = k) h.lines in
+  let rec groups acc cur = function
+    | [] -> List.rev (if cur = [] then acc else List.rev cur :: acc)
+    | ln :: r -> (match cur with
+        | l0 :: _ when l0.t <> ln.t -> groups (List.rev cur :: acc) [ln] r
+        | _ -> groups acc (ln :: cur) r) in
+  let is_trigger ln = match ln.w with
+    | ["ev"; "released"; _] | ["lm"; "lease"; _] -> true
+    | "act" :: "probe" :: _ -> false
+    | "act" :: _ -> true
+    | _ -> false in
+  (* Alternatives: an expiry handler clears its partition first and raises the released event afterwards,
+     possibly after steps of the loop that already saw the clear.  In an instant in which the loop and an
+     expiry handler both act, the instant is replayed in log order and with the clears taken first; every
+     order the model accepts is kept (a handful of states at most) and the history is rejected only when
+     none is left. *)
+  let alts = ref [ (!s, !owed, !dead) ] in
+  List.iter (fun g ->
+      let t = (List.hd g).t in
+      let rel = List.filter (fun ln -> match ln.w with ["ev"; "released"; _] -> true | _ -> false) g in
+      let amb = List.length (List.filter is_trigger g) >= 2 in
+      let first_err = ref None in
+      let out = ref [] in
+      let run (s0, owed0, dead0) early =
+        s := s0; owed := owed0; dead := dead0; relaxed := amb;
+        if !dead then out := (s0, owed0, dead0) :: !out
+        else
+          try
+            advance t;
+            cands := []; note ();
+            if early then
+              List.iter (fun ln -> match ln.w with
+                  | ["ev"; "released"; p] ->
+                      let os = do_step ln.t (SIExpire (nat_of_int (ios p))) "expire" in
+                      if os <> [] then owed := !owed @ [os]
+                  | _ -> ()) rel;
+            List.iter (fun ln -> if not !dead then process ln) g;
+            let key (s1, o1, d1) = ({ s1 with s_issued = [] }, o1, d1) in
+            let me = (!s, !owed, !dead) in
+            if !out = [] || not (List.exists (fun a -> Stdlib.compare (key a) (key me) = 0) !out) then out := me :: !out
+          with Reject _ as e -> if !first_err = None && not early then first_err := Some e in
+      List.iter (fun a -> run a false; if amb && rel <> [] then run a true) !alts;
+      (match !out with
+       | [] -> (match !first_err with Some e -> Stdlib.raise e | None -> Stdlib.raise (Reject (t, "unknown:no-alternative", "")))
+       | l -> alts := (let rec take n = function [] -> [] | x :: r -> if n = 0 then [] else x :: take (n - 1) r in take 8 (List.rev l))))
+    (groups [] [] mine)
 
 let replay_file path =
   try
